@@ -223,6 +223,17 @@ def extra_cases():
         a, d, _ = _run(md_meta=meta)
         if not (isinstance(a, tuple) and opt in a[1]):
             bad.append((f"ill-typed {opt} must be rejected naming the option", a if isinstance(a, tuple) else getattr(a, opt), f"error mentioning '{opt}'"))
+    # ... the same in fpm.toml: unknown keys reported without aborting, ill-typed values rejected naming the option
+    a, d, log = _run(toml='no_such_option = 1\nrevision = "r1"\n')
+    if isinstance(a, tuple) or a.revision != "r1" or "no_such_option" not in log:
+        bad.append(("unknown key in fpm.toml must be reported and not abort", a if isinstance(a, tuple) else (a.revision, log[-120:]), "r1 + a report naming the key"))
+    for toml, opt in (('graph = "maybe"\n', "graph"), ('graph_maxdepth = "x"\n', "graph_maxdepth"), ("search = 3\n", "search"), ("revision = 7\n", "revision")):
+        a, d, _ = _run(toml=toml)
+        if not (isinstance(a, tuple) and opt in a[1]):
+            bad.append((f"ill-typed {opt} in fpm.toml must be rejected naming the option", a if isinstance(a, tuple) else getattr(a, opt), f"error mentioning '{opt}'"))
+    a, d, _ = _run(md_meta="graph_maxdepth: x\n")
+    if not (isinstance(a, tuple) and "graph_maxdepth" in a[1]):
+        bad.append(("ill-typed integer in the project file must be rejected naming the option", a if isinstance(a, tuple) else a.graph_maxdepth, "error mentioning 'graph_maxdepth'"))
     # relative paths are relative to the project file whatever the working directory
     a, d, _ = _run(md_meta="src_dir: ./src\noutput_dir: ./out\nmedia_dir: ./m\n", chdir_project=True)
     b, d2, _ = _run(md_meta="src_dir: ./src\noutput_dir: ./out\nmedia_dir: ./m\n", chdir_project=False)
